@@ -77,6 +77,13 @@ CHECKS = {
         "math.expm1/log1p trusted; the residual tolerance includes the representational resolution of x for ulp-wide bounds.",
         "DESIGN.md §4 C12",
     ),
+    "C13": (
+        "exploration",
+        "Hypothesis property-based testing of target mode against second astropy paths (ICRS->ITRS direction dotted with the geodetic up vector; topocentric ITRS vectors for Sun and Moon; phase angle from 3-D vectors) and hand-written triangle relations; sources aimed at the kept annulus by the generator; metamorphic monotonicity in the thresholds; array-vs-scalar differential",
+        "Generated (source, window, N, detector, thresholds) over 2000-2035. Kept set and dark-sky mask are compared instant by instant outside stated don't-care bands (0.01/0.02 deg). Evidence, not proof.",
+        "astropy ephemerides/transformations and bundled IERS data trusted; N=0 not generated.",
+        "DESIGN.md §4 C13",
+    ),
     "C18": (
         "exploration",
         "Hypothesis property-based testing: byte-level write/read round trips in HDF5 and FITS over generated grids, slice and row-interpolation checks against own scalar references; exhaustive enumeration of every node of the shipped tables against the samplers' preconditions",
